@@ -141,15 +141,35 @@ def check_dependencies(idx: Index, rep: Report) -> None:
         r.fail(f.fq, Finding("C25.R3", f.fq, "conditional-dependency", f"a path returns the lattice without add_dependency({lat}, {point}) (e.g. only when the lattice is newly created): a lattice first created by a user op is never subscribed by its producer, so a later change does not re-visit the producer and the result depends on the visiting order", f.loc))
     g = idx.func(SA, "SparseBackwardDataFlowAnalysis.visit_operation")
     cf = CFG(g.node)
-    rl = [s for s in walk_local(g.node) if isinstance(s, ast.Assign) and unparse(s.targets[0]) == "result_lattices"]
-    if len(rl) == 1 and unparse(rl[0].value) == "[self.get_lattice_element_for(point, r) for r in op.results]":
-        pdef = [s for s in walk_local(g.node) if isinstance(s, ast.Assign) and unparse(s.targets[0]) == "point"]
-        if pdef and unparse(pdef[0].value) == "ProgramPoint.before(op)":
+    # the result lattices handed to the transfer function: built, in any spelling, as get_lattice_element_for(P, r)
+    # for every r of op.results, with P the point before the operation
+    from ..setbuild import describe as _describe, element_shape as _shape
+
+    opn_ = g.node.args.args[1].arg
+    impl_calls = [c for c in calls_in(g.node) if call_attr(c) == "visit_operation_impl" and len(c.args) >= 3]
+    if not impl_calls:
+        raise AnalysisError(f"{g.fq}: call of visit_operation_impl not found")
+    ic = impl_calls[0]
+    dsc = _describe(g.node, cf, ic.args[2], cf.node_of(ic))
+    ok_shape = not dsc.unknown and not dsc.bases and len(dsc.adds) == 1 and len(dsc.adds[0].iters) == 1 and dsc.adds[0].iters[0][1] == f"{opn_}.results" and not [t_ for t_, _ in dsc.adds[0].facts if re.search(rf"\b{re.escape(dsc.adds[0].iters[0][0])}\b", t_)]
+    shape = _shape(dsc.adds[0]) if dsc.adds else ""
+    m_ = re.fullmatch(r"self\.get_lattice_element_for\((.+), _x\)", shape)
+    if dsc.unknown:
+        raise AnalysisError(f"{g.fq}: construction of the result lattices not understood: {dsc.unknown[:2]}")
+    if ok_shape and m_:
+        ptxt = m_.group(1)
+        if re.fullmatch(r"\w+", ptxt):
+            from ..dataflow import reaching_defs as _rd3
+
+            ds_ = [v_ for _, v_ in _rd3(cf, ptxt, cf.node_of(ic)) if v_ is not None]
+            if len(ds_) == 1:
+                ptxt = unparse(ds_[0])
+        if ptxt == f"ProgramPoint.before({opn_})":
             r.ok(g.fq, f"{g.loc} result lattices read with dependency on ProgramPoint.before(op)")
         else:
-            r.fail(g.fq, Finding("C25.R3", g.fq, "wrong-dependent-point", "the dependent point of the result lattices is not ProgramPoint.before(op)", g.loc))
+            r.fail(g.fq, Finding("C25.R3", g.fq, "wrong-dependent-point", f"the dependent point of the result lattices is `{ptxt}`, not ProgramPoint.before({opn_})", g.loc))
     else:
-        r.fail(g.fq, Finding("C25.R3", g.fq, "results-without-dependency", "result lattices (read by the transfer function) are not obtained through get_lattice_element_for(point, r) for every result", g.loc))
+        r.fail(g.fq, Finding("C25.R3", g.fq, "results-without-dependency", f"result lattices (read by the transfer function) are not obtained through get_lattice_element_for(point, r) for every result (element `{shape}` over {[a_.iters for a_ in dsc.adds]})", g.loc))
     # the impl receives exactly these lattices and the transfer function runs on every path that gathered them
     calls = [c for c in calls_in(g.node) if unparse(c.func) == "self.visit_operation_impl"]
     if len(calls) == 1 and [unparse(a) for a in calls[0].args] == ["op", "operand_lattices", "result_lattices"]:
@@ -282,11 +302,40 @@ def check_solver(idx: Index, rep: Report) -> None:
     else:
         r.fail(f.fq, Finding("C25.R4", f.fq, "change-or", "ChangeResult.__or__ must be CHANGE if either side is CHANGE", f.loc))
     f = idx.func(SA, "SparseBackwardDataFlowAnalysis.initialize")
-    t = unparse(f.node)
-    if "self.visit(ProgramPoint.before(current_op))" in t and "stack.extend(block.ops)" in t and "for region in current_op.regions:" in t:
+    # worklist traversal: starts with the root, visits what it pops, pushes every operation of every block of every
+    # region of what it popped (setbuild describes how the worklist is filled, whatever the spelling)
+    from ..setbuild import describe as _describe4
+
+    cf4 = CFG(f.node)
+    root = f.node.args.args[1].arg
+    ws = [w for w in walk_local(f.node) if isinstance(w, ast.While) and isinstance(w.test, ast.Name)]
+    ok_init = False
+    why = "worklist loop `while <stack>:` not found"
+    if len(ws) == 1:
+        wl = ws[0].test.id
+        pops = [s_ for s_ in walk_local(ws[0]) if isinstance(s_, ast.Assign) and isinstance(s_.value, ast.Call) and call_attr(s_.value) == "pop" and unparse(s_.value.func.value) == wl and isinstance(s_.targets[0], ast.Name)]  # type: ignore[attr-defined]
+        dsc4 = _describe4(f.node, cf4, ast.Name(id=wl, ctx=ast.Load()), cf4.node_of(ws[0].test))
+        if dsc4.unknown:
+            raise AnalysisError(f"{f.fq}: how the worklist `{wl}` is filled was not understood: {dsc4.unknown[:2]}")
+        if len(pops) == 1:
+            cur = pops[0].targets[0].id  # type: ignore[attr-defined]
+            visits = [c for c in calls_in(ws[0]) if unparse(c.func) == "self.visit" and c.args and unparse(c.args[0]) == f"ProgramPoint.before({cur})"]
+            seeds_ = [a_ for a_ in dsc4.adds if not a_.iters and a_.elem == root]
+            kids = [a_ for a_ in dsc4.adds if len(a_.iters) == 3 and a_.iters[0][1] == f"{cur}.regions" and a_.iters[1][1] == f"{a_.iters[0][0]}.blocks" and a_.iters[2][1] == f"{a_.iters[1][0]}.ops" and a_.elem == a_.iters[2][0] and not [t_ for t_, _ in a_.facts if t_ != wl]]
+            if not visits:
+                why = f"the popped operation `{cur}` is not visited with ProgramPoint.before({cur})"
+            elif not seeds_:
+                why = f"the worklist does not start with `{root}`"
+            elif not kids:
+                why = f"not every operation of every block of every region of `{cur}` is pushed (found {[(a_.elem, a_.iters, sorted(a_.facts)) for a_ in dsc4.adds]})"
+            else:
+                ok_init = True
+        else:
+            why = "the worklist is not popped exactly once per iteration"
+    if ok_init:
         r.ok(f.fq, f"{f.loc} every nested operation is visited once initially")
     else:
-        r.fail(f.fq, Finding("C25.R4", f.fq, "initialize", "initialize must visit every nested operation", f.loc))
+        r.fail(f.fq, Finding("C25.R4", f.fq, "initialize", f"initialize must visit every nested operation: {why}", f.loc))
 
 
 def check_transfer(idx: Index, rep: Report) -> None:
@@ -311,8 +360,18 @@ def check_transfer(idx: Index, rep: Report) -> None:
         for c in meets:
             src = unparse(c.args[1])
             nf = norm_facts(text_facts(f.node, c))
-            if (f"{src}.is_live", True) in nf:
-                r.ok(f.fq + ":results", f"{f.loc} operands are met with `{src}` under `{src}.is_live`")
+            # `x = next((r for r in result_lattices if r.is_live), None)` tested `is not None`: a live result
+            first_live = False
+            if isinstance(c.args[1], ast.Name):
+                from ..cfg import CFG as _CFG
+                from ..dataflow import reaching_defs as _rd
+
+                _cfg = _CFG(f.node)
+                ds = [v_ for _, v_ in _rd(_cfg, src, _cfg.node_of(c)) if v_ is not None]
+                if len(ds) == 1 and re.fullmatch(r"next\(\((\w+) for \1 in result_lattices if \1\.is_live\), None\)", unparse(ds[0])) and ((f"{src} is None", False) in nf):
+                    first_live = True
+            if (f"{src}.is_live", True) in nf or first_live:
+                r.ok(f.fq + ":results", f"{f.loc} operands are met with `{src}`, a result lattice known to be live")
             elif re.fullmatch(r"result_lattices\[-?\d+\]", src) and any(re.fullmatch(r"any\(\(?(\w+)\.is_live for \1 in result_lattices\)?\)", t_) and p_ for t_, p_ in nf):
                 r.fail(f.fq + ":results", Finding("C25.R5", f.fq, "meet-source-not-live", f"`{unparse(c)}` meets the operands with the fixed lattice `{src}` under 'some result is live': when that particular result is dead and another one is live the meet is a no-op and no operand becomes live", f"{f.module.relpath}:{c.lineno}"))
             else:
